@@ -22,6 +22,7 @@
 #define protected public
 #include "tissue.hpp"
 #include "contact_model_abstract.hpp"
+#include "local_mesh_refiner.hpp"
 #include "contact_node_node_via_coupling.hpp"
 #include "contact_node_face_via_spring.hpp"
 #include "contact_face_face_via_coupling.hpp"
@@ -38,8 +39,26 @@ typedef contact_face_face_via_coupling cmodel;
 
 static std::string v3(const vec3& v){ return hx(v.dx()) + " " + hx(v.dy()) + " " + hx(v.dz()); }
 
+static int g_pre_merges = 0;       // CTM: so many edge merges per cell before the phase (the cells then hold free node and face slots)
 static std::vector<cell_ptr> make_tissue(const tissue_case& t, const std::vector<unsigned>& ids){
     std::vector<cell_ptr> cells = build_cells(t, true);
+    if (g_pre_merges > 0){
+        local_mesh_refiner lmr(t.sp.min_edge_len_, t.sp.min_edge_len_ * 3.0, false);
+        for (cell_ptr c : cells){
+            int done = 0;
+            for (int guard = 0; guard < 200 && done < g_pre_merges; guard++){
+                edge_set es = c->get_edge_set(); bool found = false;
+                size_t skip = (size_t)(guard * 7) % es.size(); size_t k = 0;
+                for (const edge& e0 : es){
+                    if (k++ < skip) continue;
+                    edge e = e0;
+                    if (e.is_manifold() && lmr.can_be_merged(e, c)){ edge_set work = es; lmr.merge_edge(e, c, work); done++; found = true; break; }
+                }
+                if (!found && skip == 0) break;
+            }
+            c->update_all_face_normals_and_areas();
+        }
+    }
     for (size_t i = 0; i < cells.size(); i++){ cells[i]->set_id(i < ids.size() ? ids[i] : (unsigned)i); cells[i]->set_local_id((unsigned)i); }
 #if CONTACT_MODEL_INDEX == 1 || CONTACT_MODEL_INDEX == 2
     for (cell_ptr c : cells) c->compute_node_curvature_and_normals();
@@ -140,8 +159,9 @@ int main(){
         std::istringstream in(line);
         try {
             tissue_case t = read_tissue(in);
-            std::string md; in >> md; if (md != "CT" && md != "CT2") throw std::runtime_error("expected CT");
+            std::string md; in >> md; if (md != "CT" && md != "CT2" && md != "CTM") throw std::runtime_error("expected CT");
             int threads; in >> threads;
+            g_pre_merges = 0; if (md == "CTM") in >> g_pre_merges;
             std::vector<unsigned> ids;
             // CT2: a SECOND contact phase on the same model object after the cells were moved / node curvatures changed
             std::vector<std::array<double,4>> moves; std::vector<std::tuple<unsigned,unsigned,double>> curv;
